@@ -40,6 +40,9 @@ class LIBCELLML_EXPORT Issue
     friend class Parser;
     friend class Printer;
     friend class Validator;
+#ifdef LIBCELLML_VERIF
+    friend struct VerifAccess; /**< Verification hook access (guarded), @private. */
+#endif
 
 public:
     virtual ~Issue(); /**< Destructor, @private. */
